@@ -323,7 +323,7 @@ func runCheck(repo, verif, prop, tier string, update bool) int {
 			continue
 		}
 		if !r.Claimed {
-			undecided = append(undecided, map[string]string{"name": r.Name, "reason": r.Status})
+			undecided = append(undecided, map[string]string{"name": r.Name, "reason": r.Status, "pos": r.Pos})
 			continue
 		}
 		if r.o.Cover && r.Status != "unsat" {
@@ -644,7 +644,7 @@ func runEffects(eng *Engine, prop string) []*EffObl {
 	case "C05":
 		return append(g.recoverObligations(libScope(eng)), g.deadContextObligations()...)
 	case "C04":
-		return append(g.compilePanicObligations(), g.arityObligations()...)
+		return append(append(g.compilePanicObligations(), g.arityObligations()...), g.stableObligations()...)
 	}
 	return nil
 }
